@@ -365,7 +365,14 @@ async def async_execute(
             # a single execution will be launched and will end.
             # it doesn't count as an additional thread that is running.
             logger.debug("Executing {} in main thread", xn.id)
-            xn.execute(results=results, profiles=profiles)
+            try:
+                xn.execute(results=results, profiles=profiles)
+            except BaseException:
+                # no ExecNode may start once a failure is known: async-thread ExecNodes whose
+                # task was created but did not get a chance to start yet must not start at all
+                for async_future in async_running:
+                    async_future.cancel()
+                raise
 
             logger.debug("Remove ExecNode {} from the graph", xn.id)
             runnable_xns_ids |= graph.remove_root_node(xn.id)
